@@ -399,7 +399,7 @@ def _run(world: World, plan):
     admission = model.Admission()
     proposals = []                # (t, username) delivered to alice
     own_stats = []                # t of own GetUserStats answers delivered to alice
-    transitions = []              # (t, iteration, parent link index|None, [child link indices])
+    transitions = []              # (t, iteration, has parent, parent sim conn id|None, [child sim conn ids])
     admissions = []               # dicts
     sig = []
     flags = set()
@@ -888,7 +888,7 @@ def _run(world: World, plan):
     for a in admissions:
         t = a['t']
         if any(tp < t - model.EPS and user == a['user'] for (tp, user) in proposals):
-            world.violate('C13.potential_parent_child', session=a['session'])
+            world.violate('C13.potential_parent_child', **({} if a['session'] else {'session': False}))
         if not any(ts <= t + model.EPS for ts in own_stats):
             world.probe('admission_before_first_own_stats')
             continue
